@@ -18,6 +18,7 @@ Core Lean only.
 import MdVerif.Lemmas.PlaceholdersXAll
 import MdVerif.Lemmas.F.PlaceholdersXFM
 import MdVerif.Lemmas.F.PlaceholdersXLate
+import MdVerif.Lemmas.F.PlaceholdersAmpBlock
 
 namespace MdVerif.NoCtlXF
 variable [MdVerif.NoCtlF.HtmlBound]
@@ -32,17 +33,17 @@ open MdVerif.NoCtlX
 /-! ## 1. the block tree and `FootnoteTreeprocessor` -/
 
 /-- the string class that the block stage keeps on the domain of `C10_partial_links` (+ wikilinks) -/
-abbrev PW (wl : Bool) : Str → Prop := fun s => (Blk.AllC pDom s ∧ Adj3 s) ∧ Qw wl s
+abbrev PW (wl : Bool) : Str → Prop := fun s => (Blk.AllC pDomA s ∧ Adj3 s) ∧ Qw wl s
 
 /-- an element of the tree before the inline stage: `WNodeB 0` of the generalised grammar, `QN`, only `code` elements
     have an atomic text, a non-atomic text is made of ordinary characters and footnote tokens -/
 def FnQ (wl : Bool) (n : Node) : Prop :=
   WNodeB 0 n ∧ QN wl n ∧ (n.textAtomic = true → isCode n = true) ∧ (n.textAtomic = false → WFO false 0 n.text)
 
-theorem fnQ_of_bnodeXP {wl : Bool} {n : Node} (h : BlkX.BNodeXP pDom Blk.okc (PW wl) n) : FnQ wl n := by
+theorem fnQ_of_bnodeXP {wl : Bool} {n : Node} (h : BlkX.BNodeXP pDomA Blk.okc (PW wl) n) : FnQ wl n := by
   obtain ⟨⟨b1, b2, b3, b4, b5, b6, b7⟩, p1, p2⟩ := h
-  have htail := allC_domB p1.1.1
-  refine ⟨⟨b1, attrsNoCtl_of_attrsC b2, b3, strT_of_noCtl htail.1 htail.2 p1.1.2, ?_,
+  have htail := allC_domA p1.1.1
+  refine ⟨⟨b1, attrsNoCtl_of_attrsCA b2, b3, strT_of_noCtl htail.1 htail.2 p1.1.2, ?_,
     fun hc => b7 (by simpa [isCode] using hc)⟩, ⟨fun ha => (p2 ha).2, p1.2⟩, ?_, ?_⟩
   · split
     · rename_i hat
@@ -51,13 +52,13 @@ theorem fnQ_of_bnodeXP {wl : Bool} {n : Node} (h : BlkX.BNodeXP pDom Blk.okc (PW
     · rename_i hat
       have hat' : n.textAtomic = false := by simpa using hat
       have ht := p2 hat'
-      have htx := allC_domB ht.1.1
+      have htx := allC_domA ht.1.1
       exact strT_of_noCtl htx.1 htx.2 ht.1.2
   · intro ha
     have := b6 ha
     simp [isCode, this]
   · intro ha
-    exact WF.of_noCtl (allC_domB (p2 ha).1.1).1
+    exact WF.of_noCtl (allC_domA (p2 ha).1.1).1
 
 theorem fnQ_kids {wl : Bool} {n : Node} (h : FnQ wl n) (kids : List Node) : FnQ wl { n with children := kids } := h
 
@@ -92,7 +93,7 @@ theorem wf_backlinkText {esc : Bool} {k : Nat} : WF esc k FootnotesTree.fnBackli
   rw [backlinkText_eq]; exact wf_frnToken (.inl ⟨FnOn.out, .inl rfl⟩)
 
 /-- a string of ordinary characters and footnote tokens, of the domain, is a string of the tree -/
-theorem strT_of_fwf {k : Nat} {s : Str} (h : WF false 0 s) (hd : DomB s) (ha : Adj3 s) : StrT k (some s) :=
+theorem strT_of_fwf {k : Nat} {s : Str} (h : WF false 0 s) (hd : DomA s) (ha : Adj3 s) : StrT k (some s) :=
   ⟨WF.mono (Nat.zero_le _) (by simp) h, hd, ha, btSafe_of_wf h⟩
 
 /-- `NBSP_PLACEHOLDER` behind the text of a `p` -/
@@ -113,7 +114,7 @@ theorem fnQ_nbsp {wl : Bool} {node : Node} {t : Str} (h : FnQ wl node) (hp : nod
   have hw0 : WF false 0 t := by have := h8 hna; rw [ht] at this; exact this
   have hq : Qw wl t := by have := q1 hna; rw [ht] at this; exact this
   have hnew : WF false 0 (t ++ FootnotesTree.nbspPlaceholder) := hw0.append wf_nbsp
-  have hdom : DomB (t ++ FootnotesTree.nbspPlaceholder) := domB_append.2 ⟨hs.2.1, by decide⟩
+  have hdom : DomA (t ++ FootnotesTree.nbspPlaceholder) := domA_append.2 ⟨hs.2.1, domA_of_domB (by decide)⟩
   have hadj : Adj3 (t ++ FootnotesTree.nbspPlaceholder) :=
     ⟨noAdj_append hs.2.2.1.1 (by decide) (.inr (by decide)),
      noPair_append hs.2.2.1.2.1 (by decide) (.inr (by decide)),
@@ -147,7 +148,7 @@ theorem backlink_fnQ {wl : Bool} {id : Str} (hid : NoCtl id) (index : Nat) :
       exact noCtl_append.2 ⟨noCtl_append.2 ⟨by decide, natToDec_noctl index⟩, by decide⟩
   · show (if false = true then _ else _)
     simp only [Bool.false_eq_true, if_false]
-    exact strT_of_fwf hnew (by decide) (by decide)
+    exact strT_of_fwf hnew (domA_of_domB (by decide)) (by decide)
   · intro hc; exact absurd (show (Tag.name "a".toList == Tag.name "code".toList) = true from hc) (by decide)
 
 theorem addBacklink_fnQ {wl : Bool} {li bl li' : Node} (hli : li.Forall (FnQ wl)) (hbl : bl.Forall (FnQ wl))
@@ -197,9 +198,9 @@ theorem footnotesOf_P {p : Char → Bool} {P : Str → Prop} {log : Block.Refs} 
 /-- the loop of `makeFootnotesDiv`: every `li` is a tree of `FnQ` elements, the log keeps its class -/
 theorem makeLis_spec (x : PipelineX.Exts) (cfg : Pipeline.Cfg) (wl : Bool) :
     ∀ (l : List (Str × Str)) (index : Nat) (log : Block.Refs) {lis : List Node} {log' : Block.Refs},
-      (∀ kv ∈ l, Blk.AllC pDom kv.1 ∧ PW wl kv.2) → BlkX.LogC pDom (PW wl) log →
+      (∀ kv ∈ l, Blk.AllC pDomA kv.1 ∧ PW wl kv.2) → BlkX.LogC pDomA (PW wl) log →
       FootnotesTree.makeLis (PipelineX.parseChunkX x cfg) PipelineX.fnCount l index log = .ok (lis, log') →
-      (∀ li ∈ lis, li.Forall (FnQ wl)) ∧ BlkX.LogC pDom (PW wl) log'
+      (∀ li ∈ lis, li.Forall (FnQ wl)) ∧ BlkX.LogC pDomA (PW wl) log'
   | [], _, log, lis, log', _, hlog, h => by
     simp only [FootnotesTree.makeLis, FootnotesTree.R.ok.injEq, Prod.mk.injEq] at h
     obtain ⟨rfl, rfl⟩ := h
@@ -220,14 +221,14 @@ theorem makeLis_spec (x : PipelineX.Exts) (cfg : Pipeline.Cfg) (wl : Bool) :
           · next lis2 log2 hrest =>
             simp only [FootnotesTree.R.ok.injEq, Prod.mk.injEq] at h
             obtain ⟨rfl, rfl⟩ := h
-            obtain ⟨hsur, hlog1⟩ := BlkX.parseChunkXT_strs (strDomX_adj3q wl) x.tables x.blockCfg cfg.tab _ log hlog
+            obtain ⟨hsur, hlog1⟩ := BlkX.parseChunkXT_strs (strDomX_adj3qA wl) x.tables x.blockCfg cfg.tab _ log hlog
               text hkv.2 hparse
             obtain ⟨ih1, ih2⟩ := makeLis_spec x cfg wl rest (index + 1) log1
               (fun kv hkv => hl kv (List.mem_cons_of_mem _ hkv)) hlog1 hrest
             refine ⟨?_, ih2⟩
             intro li hli
             rcases List.mem_cons.1 hli with rfl | hli
-            · refine addBacklink_fnQ ?_ (backlink_fnQ (allC_domB hkv.1).1 index) hadd
+            · refine addBacklink_fnQ ?_ (backlink_fnQ (allC_domA hkv.1).1 index) hadd
               rw [Node.forall_iff]
               refine ⟨?_, ?_⟩
               · refine fnQ_lit "li" _ _ (by decide) (by decide) ?_
@@ -235,7 +236,7 @@ theorem makeLis_spec (x : PipelineX.Exts) (cfg : Pipeline.Cfg) (wl : Bool) :
                 simp only [List.mem_singleton] at hkv'
                 subst hkv'
                 exact ⟨(by decide : NoCtl "id".toList), noCtl_cons.2 ⟨by decide, noCtl_cons.2 ⟨by decide, noCtl_cons.2 ⟨by decide,
-                  (allC_domB hkv.1).1⟩⟩⟩⟩
+                  (allC_domA hkv.1).1⟩⟩⟩⟩
               · intro c hc
                 have hsur' := (Node.forall_iff _ _).1 hsur
                 exact Node.Forall.mono (fun _ hn => fnQ_of_bnodeXP hn) c (hsur'.2 c hc)
@@ -245,10 +246,10 @@ theorem makeLis_spec (x : PipelineX.Exts) (cfg : Pipeline.Cfg) (wl : Bool) :
 
 /-- `makeFootnotesDiv` -/
 theorem makeDiv_spec (x : PipelineX.Exts) (cfg : Pipeline.Cfg) (wl : Bool) {log : Block.Refs}
-    (hlog : BlkX.LogC pDom (PW wl) log) {div : Option Node} {log' : Block.Refs}
+    (hlog : BlkX.LogC pDomA (PW wl) log) {div : Option Node} {log' : Block.Refs}
     (h : FootnotesTree.makeDiv (PipelineX.parseChunkX x cfg) PipelineX.fnCount (BlockExt.footnotesOf log) log =
       .ok (div, log')) :
-    (∀ d, div = some d → d.Forall (FnQ wl)) ∧ BlkX.LogC pDom (PW wl) log' := by
+    (∀ d, div = some d → d.Forall (FnQ wl)) ∧ BlkX.LogC pDomA (PW wl) log' := by
   unfold FootnotesTree.makeDiv at h
   split at h
   · simp only [FootnotesTree.R.ok.injEq, Prod.mk.injEq] at h
@@ -737,19 +738,23 @@ def AbbrTabOK (x : PipelineX.Exts) (abbrs : List (Str × Str)) : Prop :=
   x.abbr = true → (∀ kv ∈ abbrs, NoCtl kv.1 ∧ NoCtl kv.2) ∧ noDigitsAbbr abbrs = true ∧ NoFrnAbbr abbrs
 
 /-- **the stages behind the block parser with footnotes on**: block tree of `FnQ` elements (texts and tails of the
-    domain with foreign tokens), log of the token-free class, the raw-HTML stash as the grammar expects it
-    (`StashOK`); whatever the rest of `convertX` answers contains neither STX nor ETX -/
+    domain with foreign tokens), log of the token-free class, the entries of the raw-HTML stash of the preprocessors
+    free of STX/ETX, and the parameter `HtmlBound.h` of the grammar equal to the length of the raw-HTML stash BEHIND the
+    inline stage (which appends the entities); whatever the rest of `convertX` answers contains neither STX nor ETX -/
 theorem tail_fn [FnOn] {x : PipelineX.Exts} (hfn : x.footnotes = true) {cfg : Pipeline.Cfg} (hcfg : EscOK cfg.esc)
-    {stash : List Str} (hst : StashOK x stash) {root : Node} {log log' : Block.Refs} {div : Option Node}
-    (hroot : root.Forall (FnQ x.wikilinks)) (hlog : BlkX.LogC pDom (PW x.wikilinks) log)
+    {stash : List Str} (hfnb : HtmlBound.fn = x.footnotes) (hent : ∀ e ∈ stash, NoCtl e)
+    {root : Node} {log log' : Block.Refs} {div : Option Node}
+    (hroot : root.Forall (FnQ x.wikilinks)) (hlog : BlkX.LogC pDomA (PW x.wikilinks) log)
     (hm : FootnotesTree.makeDiv (PipelineX.parseChunkX x cfg) PipelineX.fnCount (BlockExt.footnotesOf log) log =
       .ok (div, log'))
     {t t' u : Node} {xs : InlineX.XSt} {html : List Str} {out : Str}
     (hr : InlineX.runX (xcX x cfg log') (fnRoot root div) stash = some (t, xs))
+    (hh : HtmlBound.h = xs.st.html.length)
     (hdp : FootnotesTree.duplicates xs.fn t = some t')
     (hl : lateX x cfg (BlockExt.abbrsOf log') t' xs.st.html = .ok u html)
     (hf : PipelineX.finishX x cfg html (Ser.serialize cfg.fmt u) = .ok out)
-    (habbr : BlkX.LogC pDom (PW x.wikilinks) log' → AbbrTabOK x (BlockExt.abbrsOf log')) : NoCtl out := by
+    (habbr : HtmlOK xs.st.html stash → BlkX.LogC pDomA (PW x.wikilinks) log' → AbbrTabOK x (BlockExt.abbrsOf log')) :
+    NoCtl out := by
   obtain ⟨hdiv, hlog'⟩ := makeDiv_spec x cfg x.wikilinks hlog hm
   have hfr : (fnRoot root div).Forall (FnQ x.wikilinks) := by
     cases div with
@@ -761,38 +766,40 @@ theorem tail_fn [FnOn] {x : PipelineX.Exts} (hfn : x.footnotes = true) {cfg : Pi
     intro k hk
     simp only [List.mem_map] at hk
     obtain ⟨kv, hkv, rfl⟩ := hk
-    exact (allC_domB (BlkX.footnotesOf_c hlog' kv hkv).1).1
-  have hhi := hiSpecXB_tables (xc := xcX x cfg log') (escOK_escX x hcfg) (refsOK_of_logC x _ hlog') hkeys
+    exact (allC_domA (BlkX.footnotesOf_c hlog' kv hkv).1).1
+  have hhi := hiSpecXB_tables (xc := xcX x cfg log') (escOK_escX x hcfg) (refsOK_of_logCA x _ hlog') hkeys
     (fn := x.footnotes) (wl := x.wikilinks) (nl := x.nl2br) rfl
-  obtain ⟨ht, hhtml⟩ := runX_specB hhi htree htreeq hr
+  obtain ⟨ht, hhtml⟩ := runX_specB hhi htree htreeq hr (Nat.le_of_eq hh.symm)
   have htA : t'.Forall FNodeA :=
     duplicates_fnodeA xs.fn t (Node.Forall.mono (fun _ hn => fnodeA_of_wnodeB hn) t ht) hdp
   have htX : t'.Forall FNodeX := Node.Forall.mono (fun _ hn => hn.1) t' htA
-  rw [hhtml] at hl
-  exact late_noctl_st cfg hst (habbr hlog') htX hl hf
+  have hst : StashOK x xs.st.html := ⟨Nat.le_of_eq hh, hfnb, hhtml.noCtl hent⟩
+  exact late_noctl_st cfg hst (habbr hhtml hlog') htX hl hf
 
 /-- **the stages behind the block parser with footnotes off** -/
 theorem tail_nofn {x : PipelineX.Exts} (hfn : x.footnotes = false) {cfg : Pipeline.Cfg} (hcfg : EscOK cfg.esc)
-    {stash : List Str} (hst : StashOK x stash) {root : Node} {log : Block.Refs}
-    (hroot : root.Forall (FnQ x.wikilinks)) (hlog : BlkX.LogC pDom (PW x.wikilinks) log)
+    {stash : List Str} (hfnb : HtmlBound.fn = x.footnotes) (hent : ∀ e ∈ stash, NoCtl e)
+    {root : Node} {log : Block.Refs}
+    (hroot : root.Forall (FnQ x.wikilinks)) (hlog : BlkX.LogC pDomA (PW x.wikilinks) log)
     {t u : Node} {xs : InlineX.XSt} {html : List Str} {out : Str}
     (hr : InlineX.runX (xcX x cfg log) root stash = some (t, xs))
+    (hh : HtmlBound.h = xs.st.html.length)
     (hl : lateX x cfg (BlockExt.abbrsOf log) t xs.st.html = .ok u html)
     (hf : PipelineX.finishX x cfg html (Ser.serialize cfg.fmt u) = .ok out)
-    (habbr : AbbrTabOK x (BlockExt.abbrsOf log)) : NoCtl out := by
+    (habbr : HtmlOK xs.st.html stash → AbbrTabOK x (BlockExt.abbrsOf log)) : NoCtl out := by
   have htree : root.Forall (WNodeB 0) := Node.Forall.mono (fun _ hn => hn.1) _ hroot
   have htreeq : root.Forall (QN x.wikilinks) := Node.Forall.mono (fun _ hn => hn.2.1) _ hroot
   have hkeys : ∀ k ∈ (xcX x cfg log).fnKeys, NoCtl k := by
     intro k hk
     simp only [List.mem_map] at hk
     obtain ⟨kv, hkv, rfl⟩ := hk
-    exact (allC_domB (BlkX.footnotesOf_c hlog kv hkv).1).1
-  have hhi := hiSpecXB_tables (xc := xcX x cfg log) (escOK_escX x hcfg) (refsOK_of_logC x _ hlog) hkeys
+    exact (allC_domA (BlkX.footnotesOf_c hlog kv hkv).1).1
+  have hhi := hiSpecXB_tables (xc := xcX x cfg log) (escOK_escX x hcfg) (refsOK_of_logCA x _ hlog) hkeys
     (fn := x.footnotes) (wl := x.wikilinks) (nl := x.nl2br) rfl
-  obtain ⟨ht, hhtml⟩ := runX_specB hhi htree htreeq hr
+  obtain ⟨ht, hhtml⟩ := runX_specB hhi htree htreeq hr (Nat.le_of_eq hh.symm)
   have htX : t.Forall FNodeX := Node.Forall.mono (fun _ hn => fnodeX_of_wnodeB hn) t ht
-  rw [hhtml] at hl
-  exact late_noctl_st cfg hst habbr htX hl hf
+  have hst : StashOK x xs.st.html := ⟨Nat.le_of_eq hh, hfnb, hhtml.noCtl hent⟩
+  exact late_noctl_st cfg hst (habbr hhtml) htX hl hf
 
 /-- the escapable characters: the hypothesis for the generalised grammar (`q`, `d` are inner characters too) implies
     the one of the original grammar -/
